@@ -1,12 +1,12 @@
 #!/bin/bash
-# Apply every kept seeded change (seeded/*/patch.diff) to a scratch copy of /repo and run all checks.
+# Apply every kept seeded change (seeded/*/patch.diff) to a scratch copy of /repo and run all checks (in parallel).
 export GOFLAGS=-mod=mod GOPROXY=off GOSUMDB=off GOTOOLCHAIN=local GOWORK=off
-for d in /verif/seeded/*/; do
-  id=$(basename $d); target=${id%%-*}
+one() {
+  d=$1; id=$(basename $d); target=${id%%-*}
   S=$(mktemp -d /tmp/ev_seed.XXXXXX)
   cp -r /repo/. $S/ && rm -rf $S/.git
-  if ! (cd $S && patch -p1 --quiet < $d/patch.diff >/dev/null 2>&1); then echo "$id: PATCH DOES NOT APPLY to current /repo"; rm -rf $S; continue; fi
-  if ! (cd $S && go build ./... >/dev/null 2>&1); then echo "$id: does not build"; rm -rf $S; continue; fi
+  if ! (cd $S && patch -p1 --quiet < $d/patch.diff >/dev/null 2>&1); then echo "$id: PATCH DOES NOT APPLY to current /repo"; rm -rf $S; return; fi
+  if ! (cd $S && go build ./... >/dev/null 2>&1); then echo "$id: does not build"; rm -rf $S; return; fi
   fired=""
   for p in C01 C02 C03 C04 C05 C06 C07 C08 C09 C10 C11 C12 C13 C14 C15 C16 C17 C19 C20; do
     if /verif/bin/goatcheck -repo $S -verif /verif -prop $p -no-evidence 2>&1 | grep -q "^VIOLATION"; then fired="$fired $p"; fi
@@ -14,4 +14,6 @@ for d in /verif/seeded/*/; do
   hit=MISSED; case " $fired " in *" $target "*) hit=caught;; esac
   echo "$id: target $hit; fired:$fired"
   rm -rf $S
-done
+}
+export -f one
+ls -d /verif/seeded/*/ | xargs -P 8 -I{} bash -c 'one {}' | sort
